@@ -553,6 +553,7 @@ func Main(checks map[string]Check) {
 	shard := flag.String("shard", "", "worker mode: k/n")
 	outFile := flag.String("out", "", "worker mode: result file")
 	flag.Parse()
+	debug.SetGCPercent(400) // the checks allocate many short-lived values on small live heaps
 	if t := os.Getenv("VERIF_TIER"); t != "" && *tier == "" {
 		*tier = t
 	}
@@ -611,7 +612,13 @@ func Main(checks map[string]Check) {
 	if c.Procs > 0 {
 		r.runWorkers(c.Procs)
 	} else {
+		if pf := os.Getenv("VERIF_CPUPROFILE"); pf != "" {
+			if f, err := os.Create(pf); err == nil {
+				pprof.StartCPUProfile(f)
+			}
+		}
 		r.guard(func() { c.Run(r) })
+		pprof.StopCPUProfile()
 	}
 	os.Exit(r.finish())
 }
